@@ -22,7 +22,7 @@ use std::borrow::Borrow;
 use std::collections::hash_map::DefaultHasher;
 use std::hash::{Hash, Hasher};
 use std::panic::{catch_unwind, AssertUnwindSafe};
-use std::sync::atomic::{AtomicIsize, Ordering};
+use std::sync::atomic::{AtomicIsize, AtomicUsize, Ordering};
 use std::sync::Arc;
 
 const FAULT: &str = "allocator fault: double free / free of unknown pointer / bad layout";
@@ -1510,8 +1510,76 @@ fn case_slice(out: &mut Out, r: &mut Rng, which: Which, st: &CStatics) {
     c_end(&mut case, d0);
 }
 
+// ---------------------------------------------------------------------------------------------
+// stream D: `into_owned()` of an Arc-backed Cow racing `Weak::upgrade()` on the same allocation (real threads,
+// stress; failing-input search only).  The Cow is the only strong owner, another thread holds a `Weak` and keeps
+// upgrading, reading and dropping.  Whatever the interleaving: contents unchanged, every element dropped once.
+fn stress_weak_upgrade(out: &mut Out, iterations: usize) {
+    use std::sync::atomic::AtomicBool;
+    const N: usize = 20_000;
+    let mut upgrades_total = 0usize;
+    for it in 0..iterations {
+        let before = LIVE_D.load(Ordering::SeqCst);
+        let arc: Arc<[D]> = (0..N).map(|i| D::new(i as u8)).collect();
+        let weak = Arc::downgrade(&arc);
+        let cow = DCow::from_shared(arc);
+        let stop = AtomicBool::new(false);
+        let barrier = std::sync::Barrier::new(2);
+        let upgrades = AtomicUsize::new(0);
+        let bad_read = AtomicBool::new(false);
+        let mut bad_owned = false;
+        std::thread::scope(|sc| {
+            sc.spawn(|| {
+                barrier.wait();
+                while !stop.load(Ordering::Acquire) {
+                    if let Some(strong) = weak.upgrade() {
+                        upgrades.fetch_add(1, Ordering::Relaxed);
+                        if strong.len() != N || strong[0].0 != 0 || strong[N - 1].0 != (N - 1) as u8 {
+                            bad_read.store(true, Ordering::SeqCst);
+                        }
+                        drop(strong);
+                    }
+                }
+            });
+            barrier.wait();
+            for _ in 0..(it % 7) * 40 {
+                std::hint::spin_loop();
+            }
+            let owned: Vec<D> = cow.into_owned();
+            stop.store(true, Ordering::Release);
+            bad_owned = owned.len() != N || !owned.iter().enumerate().all(|(i, d)| d.0 == i as u8);
+            drop(owned);
+        });
+        drop(weak);
+        upgrades_total += upgrades.load(Ordering::Relaxed);
+        let after = LIVE_D.load(Ordering::SeqCst);
+        if after != before {
+            out.oracle_fail(
+                "into_owned() racing Weak::upgrade(): elements were dropped twice or leaked",
+                &format!(
+                    "Arc<[D]> of {} elements, downgraded to a Weak, handed to Cow::from_shared (only strong owner); thread T loops Weak::upgrade()/read/drop while the main thread calls into_owned() and drops the Vec; iteration {}: live element count changed by {} ({} upgrades succeeded)",
+                    N, it, after - before, upgrades.load(Ordering::Relaxed)
+                ),
+            );
+            LIVE_D.store(before, Ordering::SeqCst);
+            break;
+        }
+        if bad_read.load(Ordering::SeqCst) || bad_owned {
+            out.oracle_fail("into_owned() racing Weak::upgrade(): content changed", &format!("iteration {}", it));
+            break;
+        }
+    }
+    out.count(&format!("weak-upgrade stress iterations={}", iterations));
+    if upgrades_total > 0 {
+        out.nontrivial();
+        out.count("weak-upgrade stress: upgrades succeeded while into_owned ran or before it");
+    }
+}
+
 pub fn run(cfg: &Cfg, out: &mut Out) {
     alloc::install();
+    out.case("stream D: into_owned racing Weak::upgrade (stress)");
+    stress_weak_upgrade(out, if cfg.thorough { 3000 } else { 400 });
     let root = Rng::new(cfg.seed);
     let mut sr = root.fork(0xC14);
     let bst = b_statics(&mut sr);
